@@ -750,8 +750,9 @@ def main():
             cases = genCases()
             done = 0
             opts = set()
+            c0 = time.thread_time()  # CPU seconds of this thread: independent of machine load
             for i, case in enumerate(cases):
-                if time.time() - t > budget:
+                if time.thread_time() - c0 > budget:
                     break
                 try:
                     runCase(case, sample=i in (0, 40, 60))
